@@ -15,10 +15,12 @@
    permutation of the event times" -- a declarative description of the time sequence, no algorithm.
    [kingman P lnN evs ts] = - isum (kterm P evs) ts - sum over coalescent events of lnN(time):
    the Kingman log density with int_a^b 1/N = P a b . . and ln N = lnN.
-   [no_tie evs]: no grid point lies exactly on a coalescent time. *)
+   [no_tie evs]: no grid point lies exactly on a coalescent time (needed for the piecewise-CONSTANT grid
+   model only, whose N jumps at grid points; the continuous models below do without it).
+   [grid_times evs]: the times of the Grid events of evs. *)
 From Coq Require Import QArith ZArith Reals Qreals List Permutation Sorted.
 Import ListNotations.
-From TT Require Import Num NumR NumQ NumI ParamI Tree M_coalescent P_coalescent P_coalescent_param.
+From TT Require Import Num NumR NumQ NumI ParamI Tree M_coalescent P_coalescent P_coalescent_param P_coalescent_tie.
 From Coquelicot Require Import Coquelicot.
 Open Scope R_scope.
 
@@ -106,25 +108,86 @@ Print Assumptions C08_skygrid_eq_kingman.
 (* PiecewiseLinearCoalescentGrid: N = linN (linear interpolation of the thetas on the grid with
    t = 0 prepended, last theta beyond the grid); piece integral linP = duration / N on flat pieces,
    the closed form elsewhere (C08_lin_piece_is_integral, C08_lin_piece_flat_is_integral).
-   PARTIAL: N is continuous, so the full statement is the same equation WITHOUT the hypothesis
-   [no_tie evs]; what is missing is the continuity argument at a coalescent time that coincides with
-   a grid point (linN (j+1) g = linN j g at grid point g). *)
-Theorem C08_linear_eq_kingman_partial : forall thq th gridT (evs : list (event R)) ts,
-  keys_ok evs -> no_tie evs -> StronglySorted Rle ts -> Permutation ts (map etime evs) ->
+   FULL statement: N is continuous, so coalescent times MAY coincide with grid points (no [no_tie]); what is
+   needed instead is that the interpolation abscissae gridT are the grid points of the events and form a
+   grid 0 < g_1 < g_2 < ... — each part of which is necessary (refutations below). *)
+Theorem C08_linear_eq_kingman : forall thq th gridT (evs : list (event R)) ts,
+  keys_ok evs -> StronglySorted Rlt (0 :: gridT) -> Permutation gridT (grid_times evs) ->
+  StronglySorted Rle ts -> Permutation ts (map etime evs) ->
   linear_lp NumR thq th gridT evs
   = kingman (fun a b g _ => linP thq th gridT a b g) (fun t => ln (linN th gridT (glt evs t) t)) evs ts.
-Proof. exact linear_eq_kingman_l. Qed.
-Print Assumptions C08_linear_eq_kingman_partial.
+Proof. exact linear_eq_kingman_full. Qed.
+Print Assumptions C08_linear_eq_kingman.
 
 (* PiecewiseExponentialCoalescentGrid: ln N = peLnN (N(0) = theta, growth_j on piece j, continuous).
-   PARTIAL in the same sense (hypothesis no_tie removable by continuity, not proved). *)
-Theorem C08_pwexp_eq_kingman_partial : forall theta gq growth gridT (evs : list (event R)) ts,
-  keys_ok evs -> no_tie evs -> StronglySorted Rle ts -> Permutation ts (map etime evs) ->
+   FULL statement, ties allowed; repeated grid points and grid points <= 0 are fine here. *)
+Theorem C08_pwexp_eq_kingman : forall theta gq growth gridT (evs : list (event R)) ts,
+  keys_ok evs -> StronglySorted Rle gridT -> Permutation gridT (grid_times evs) ->
+  StronglySorted Rle ts -> Permutation ts (map etime evs) ->
   pwexp_lp NumR theta gq growth gridT evs
   = kingman (fun a b g _ => peP theta gq growth gridT a b g)
             (fun t => peLnN theta growth gridT (glt evs t) t) evs ts.
-Proof. exact pwexp_eq_kingman_l. Qed.
-Print Assumptions C08_pwexp_eq_kingman_partial.
+Proof. exact pwexp_eq_kingman_full. Qed.
+Print Assumptions C08_pwexp_eq_kingman.
+
+(* At the entry points used by the correspondence (events and abscissae built from ONE exact grid list) the
+   link holds by construction; only the shape of the grid remains. *)
+Theorem C08_linear_entry_point : forall thetas grid tips coals ts,
+  StronglySorted Qlt (0%Q :: grid) ->
+  let evs := mk_events NumR tips coals grid in
+  StronglySorted Rle ts -> Permutation ts (map etime evs) ->
+  linear_q NumR thetas grid tips coals
+  = kingman (fun a b g _ => linP thetas (map Q2R thetas) (map Q2R grid) a b g)
+            (fun t => ln (linN (map Q2R thetas) (map Q2R grid) (glt evs t) t)) evs ts.
+Proof. exact linear_q_eq_kingman. Qed.
+Print Assumptions C08_linear_entry_point.
+Theorem C08_pwexp_entry_point : forall theta growth grid tips coals ts,
+  StronglySorted Qle grid ->
+  let evs := mk_events NumR tips coals grid in
+  StronglySorted Rle ts -> Permutation ts (map etime evs) ->
+  pwexp_q NumR theta growth grid tips coals
+  = kingman (fun a b g _ => peP (Q2R theta) growth (map Q2R growth) (map Q2R grid) a b g)
+            (fun t => peLnN (Q2R theta) (map Q2R growth) (map Q2R grid) (glt evs t) t) evs ts.
+Proof. exact pwexp_q_eq_kingman. Qed.
+Print Assumptions C08_pwexp_entry_point.
+
+(* The hypotheses on the grid cannot be dropped (concrete witnesses, a grid point and a coalescence at the same
+   time): abscissae unrelated to the grid events; a grid point at t = 0 or a repeated grid point (a piece of
+   length zero: the interpolated N is discontinuous there); an unsorted grid for the exponential model. *)
+Theorem C08_linear_needs_linked_grid_refuted :
+  exists thq th gridT (evs : list (event R)) ts,
+    keys_ok evs /\ StronglySorted Rle ts /\ Permutation ts (map etime evs) /\
+    linear_lp NumR thq th gridT evs
+    <> kingman (fun a b g _ => linP thq th gridT a b g) (fun t => ln (linN th gridT (glt evs t) t)) evs ts.
+Proof. exact linear_eq_kingman_unlinked_refuted. Qed.
+Print Assumptions C08_linear_needs_linked_grid_refuted.
+Theorem C08_linear_needs_positive_grid_refuted :
+  exists thq th gridT (evs : list (event R)) ts,
+    keys_ok evs /\ StronglySorted Rle (0 :: gridT) /\ StronglySorted Rlt gridT /\
+    Permutation gridT (grid_times evs) /\
+    StronglySorted Rle ts /\ Permutation ts (map etime evs) /\
+    linear_lp NumR thq th gridT evs
+    <> kingman (fun a b g _ => linP thq th gridT a b g) (fun t => ln (linN th gridT (glt evs t) t)) evs ts.
+Proof. exact linear_eq_kingman_grid_at_zero_refuted. Qed.
+Print Assumptions C08_linear_needs_positive_grid_refuted.
+Theorem C08_linear_needs_strict_grid_refuted :
+  exists thq th gridT (evs : list (event R)) ts,
+    keys_ok evs /\ StronglySorted Rle gridT /\ List.Forall (fun g => 0 < g) gridT /\
+    Permutation gridT (grid_times evs) /\
+    StronglySorted Rle ts /\ Permutation ts (map etime evs) /\
+    linear_lp NumR thq th gridT evs
+    <> kingman (fun a b g _ => linP thq th gridT a b g) (fun t => ln (linN th gridT (glt evs t) t)) evs ts.
+Proof. exact linear_eq_kingman_repeated_grid_refuted. Qed.
+Print Assumptions C08_linear_needs_strict_grid_refuted.
+Theorem C08_pwexp_needs_sorted_grid_refuted :
+  exists theta gq growth gridT (evs : list (event R)) ts,
+    keys_ok evs /\ Permutation gridT (grid_times evs) /\
+    StronglySorted Rle ts /\ Permutation ts (map etime evs) /\
+    pwexp_lp NumR theta gq growth gridT evs
+    <> kingman (fun a b g _ => peP theta gq growth gridT a b g)
+               (fun t => peLnN theta growth gridT (glt evs t) t) evs ts.
+Proof. exact pwexp_eq_kingman_unsorted_grid_refuted. Qed.
+Print Assumptions C08_pwexp_needs_sorted_grid_refuted.
 
 (* ------------------------------------------------------------------ closed-form piece integrals *)
 
